@@ -9,6 +9,7 @@ value) and all well-formed labels / tags / IRIs; the output is one statement per
 -/
 import SophiaProofs.Lemmas.NTLang
 import SophiaProofs.Lemmas.NTBytes
+import SophiaModel.Gen.TermKind
 
 namespace SophiaProofs.C03
 open SophiaModel SophiaModel.NT SophiaProofs.NTL SophiaProofs.NTB SophiaModel.Re
@@ -277,6 +278,151 @@ theorem read_write_doc_valid (d : List Quad)
     (hd : ∀ q ∈ d, quadAll termValid q = true ∧ quadAll termBcp q = true ∧ strictQuad q = true) :
     readDoc true (writeDoc d) = some d :=
   read_write_doc d (fun q h => domain_quadOk q (hd q h).1 (hd q h).2.1 (hd q h).2.2)
+
+/-! ## the writer as the source spells it (generated op tables) is the writer of the theorems
+
+`writeTermT … writeDocT` interpret `Gen/NtWriter.lean` — `write_term`'s arms, the literal decision
+tree with the `NsTerm` it compares the datatype with, `write_triple`, the closures of
+`serialize_triples` / `serialize_quads`, all regenerated from the source — and are what the driver
+prints.  They are equal, for every input, to `writeTerm … writeDoc`, so every theorem of this
+file is about the bytes the differential compares; a change of the source inside the op language
+(another separator, another elided datatype, a reordered arm) changes the table and fails these
+obligations, one outside it fails the extractor. -/
+
+/-- `NsTerm::eq` (prefix test, then comparison of the rest) is equality with `ns ++ suffix` -/
+theorem nsTermEq_iff (ns sfx iri : Str) : nsTermEq ns sfx iri = true ↔ iri = ns ++ sfx := by
+  simp only [nsTermEq, Bool.and_eq_true, beq_iff_eq]
+  constructor
+  · rintro ⟨h1, h2⟩
+    obtain ⟨t, rfl⟩ := List.isPrefixOf_iff_prefix.1 h1
+    simp at h2; rw [h2]
+  · rintro rfl
+    exact ⟨List.isPrefixOf_iff_prefix.2 (List.prefix_append _ _), by simp⟩
+
+/-- the flags other tables contribute: `NsTerm::eq` still has the shape `nsTermEq` models (C02's
+extractor), `serialize_graph` / `serialize_dataset` still are `serialize_triples(g.triples())` /
+`serialize_quads(d.quads())`, and the datatype the literal arm elides is `xsd:string` -/
+theorem writer_flags_ok :
+    Gen.TermKind.nsTermEqShape = true ∧ Gen.serializeContainerIsSource = true ∧
+      Gen.ntElideNs ++ Gen.ntElideSuffix = xsdString := by decide
+
+/-- **the datatype elision rule**: `"^^<dt>` is written unless `dt` is exactly `xsd:string` — no
+other IRI (same namespace and `string` as a suffix, other case, other namespace) is elided -/
+theorem elide_iff (dt : Str) : nsTermEq Gen.ntElideNs Gen.ntElideSuffix dt = true ↔ dt = xsdString := by
+  simp only [nsTermEq_iff, writer_flags_ok.2.2]
+
+theorem elide_eq (dt : Str) : (!nsTermEq Gen.ntElideNs Gen.ntElideSuffix dt) = decide (xsdString ≠ dt) := by
+  by_cases h : dt = xsdString
+  · have := (elide_iff dt).2 h
+    subst h; simp [this]
+  · have : nsTermEq Gen.ntElideNs Gen.ntElideSuffix dt = false := by
+      cases e : nsTermEq Gen.ntElideNs Gen.ntElideSuffix dt with
+      | false => rfl
+      | true => exact absurd ((elide_iff dt).1 e) h
+    simp [this, Ne.symm h]
+
+/-- **`write_term` as generated = `writeTerm`**, every term -/
+theorem writeTermT_eq : ∀ t : Term, writeTermT t = writeTerm t := by
+  intro t
+  induction t with
+  | iri s => simp [writeTermT, writeTerm, interp, Gen.ntArmIri]
+  | bnode l => simp [writeTermT, writeTerm, interp, Gen.ntArmBnode]
+  | var v => simp [writeTermT, writeTerm, interp, Gen.ntArmVar]
+  | lit lex dt =>
+    simp only [writeTermT, writeTerm, elide_eq]
+    by_cases h : xsdString = dt <;> simp [interp, Gen.ntLitPre, Gen.ntLitTyped, Gen.ntLitPlain, h]
+  | lang lex tag => simp [writeTermT, writeTerm, interp, Gen.ntLitPre, Gen.ntLitLang]
+  | triple s p o ihs ihp iho =>
+    simp [writeTermT, writeTerm, interp, Gen.ntTriple, Gen.ntArmTriple, ihs, ihp, iho]
+
+theorem writeTripleT_eq (s p o : Term) : writeTripleT s p o = writeTriple s p o := by
+  simp [writeTripleT, writeTriple, interp, Gen.ntTriple, writeTermT_eq]
+
+/-- **the closure of `serialize_quads` as generated = `writeQuad`**; the closure of
+`serialize_triples` too, on what it can be given (no graph name) -/
+theorem writeQuadT_eq (q : Quad) :
+    writeQuadT true q = writeQuad q ∧ (q.g = none → writeQuadT false q = writeQuad q) := by
+  constructor
+  · cases hg : q.g <;>
+      simp [writeQuadT, writeQuad, interp, Gen.nqPre, Gen.nqNone, Gen.nqSome, writeTripleT_eq, writeTermT_eq, hg]
+  · intro h
+    simp [writeQuadT, writeQuad, interp, Gen.ntStatement, writeTripleT_eq, h]
+
+/-- **documents** -/
+theorem writeDocT_eq (d : List Quad) :
+    writeDocT true d = writeDoc d ∧ ((∀ q ∈ d, q.g = none) → writeDocT false d = writeDoc d) := by
+  constructor
+  · have : writeQuadT true = writeQuad := funext fun q => (writeQuadT_eq q).1
+    simp [writeDocT, writeDoc, this]
+  · intro h
+    induction d with
+    | nil => rfl
+    | cons q d ih =>
+      have e := (writeQuadT_eq q).2 (h q (by simp))
+      have ih' := ih (fun q' hq' => h q' (by simp [hq']))
+      simp only [writeDocT, writeDoc, List.flatMap_cons] at ih' ⊢
+      rw [e, ih']
+
+/-- **the property for the generated writer**: what the source's own spelling writes for a dataset
+of the domain is read back, by the grammar reader, as exactly that dataset (N-Quads; N-Triples
+for datasets without graph names) -/
+theorem read_write_doc_generated (d : List Quad)
+    (hd : ∀ q ∈ d, quadAll termValid q = true ∧ quadAll termBcp q = true ∧ strictQuad q = true) :
+    readDoc true (writeDocT true d) = some d ∧
+      ((∀ q ∈ d, q.g = none) → readDoc false (writeDocT false d) = some d) := by
+  have hok : ∀ q ∈ d, quadOk q = true := fun q h => domain_quadOk q (hd q h).1 (hd q h).2.1 (hd q h).2.2
+  refine ⟨by rw [(writeDocT_eq d).1]; exact read_write_doc d hok, fun hg => ?_⟩
+  rw [(writeDocT_eq d).2 hg]
+  exact read_write_doc_nt d (fun q h => ⟨hok q h, hg q h⟩)
+
+/-! ## the hypotheses: discharged where they are internal, shown necessary where they are guards -/
+
+/-- **the fuel hypothesis of `read_write_term` is internal**: the fuel the line reader actually
+passes (the length of the text) always suffices, whatever the nesting depth -/
+theorem read_term_fuel (t : Term) (ht : termOk t = true) (r : Str) (hr : delim r = true) :
+    readTerm (writeTerm t ++ r).length (writeTerm t ++ r) = some (t, r) :=
+  read_write_term t ht _ r (by have := depth_lt t; simp only [List.length_append]; omega) hr
+
+def q3 (s p o : Term) : Quad := ⟨s, p, o, none⟩
+def ix (s : String) : Term := .iri s.toList
+
+/-- **every guard of `quadOk` is necessary**: for each clause a quad violating only that clause
+whose serialisation does NOT read back as itself (so `read_write_doc` cannot be stated without it):
+an IRI containing `>` / a space; a label ending in `.`; a tag whose first subtag has a digit (the
+`a1` that `LanguageTag::new` accepts), with an empty subtag, empty; a variable; a literal subject, a
+blank-node predicate, a literal graph name (strictness); and `read_write_doc_nt`'s "no graph name" -/
+theorem guards_necessary :
+    readDoc true (writeDoc [q3 (ix "a>b") (ix "x:p") (ix "x:o")]) ≠ some [q3 (ix "a>b") (ix "x:p") (ix "x:o")] ∧
+    readDoc true (writeDoc [q3 (ix "a b") (ix "x:p") (ix "x:o")]) ≠ some [q3 (ix "a b") (ix "x:p") (ix "x:o")] ∧
+    readDoc true (writeDoc [q3 (.bnode "a.".toList) (ix "x:p") (ix "x:o")]) ≠ some [q3 (.bnode "a.".toList) (ix "x:p") (ix "x:o")] ∧
+    readDoc true (writeDoc [q3 (ix "x:s") (ix "x:p") (.lang ['v'] "a1".toList)]) ≠ some [q3 (ix "x:s") (ix "x:p") (.lang ['v'] "a1".toList)] ∧
+    readDoc true (writeDoc [q3 (ix "x:s") (ix "x:p") (.lang ['v'] "en--a".toList)]) ≠ some [q3 (ix "x:s") (ix "x:p") (.lang ['v'] "en--a".toList)] ∧
+    readDoc true (writeDoc [q3 (ix "x:s") (ix "x:p") (.lang ['v'] [])]) ≠ some [q3 (ix "x:s") (ix "x:p") (.lang ['v'] [])] ∧
+    readDoc true (writeDoc [q3 (ix "x:s") (ix "x:p") (.var ['v'])]) ≠ some [q3 (ix "x:s") (ix "x:p") (.var ['v'])] ∧
+    readDoc true (writeDoc [q3 (.lit ['v'] xsdString) (ix "x:p") (ix "x:o")]) ≠ some [q3 (.lit ['v'] xsdString) (ix "x:p") (ix "x:o")] ∧
+    readDoc true (writeDoc [q3 (ix "x:s") (.bnode ['b']) (ix "x:o")]) ≠ some [q3 (ix "x:s") (.bnode ['b']) (ix "x:o")] ∧
+    readDoc true (writeDoc [⟨ix "x:s", ix "x:p", ix "x:o", some (.lit ['g'] xsdString)⟩]) ≠
+      some [⟨ix "x:s", ix "x:p", ix "x:o", some (.lit ['g'] xsdString)⟩] ∧
+    readDoc false (writeDoc [⟨ix "x:s", ix "x:p", ix "x:o", some (ix "x:g")⟩]) ≠ some [⟨ix "x:s", ix "x:p", ix "x:o", some (ix "x:g")⟩] := by
+  decide +kernel
+
+/-- **the `delim` hypothesis of `read_write_term` is necessary**: a label followed by a label
+character, a tag followed by `-x`, a plain literal followed by `@…` are read as something else -/
+theorem delim_necessary :
+    readTerm 2 (writeTerm (.bnode ['a']) ++ ['b']) ≠ some (.bnode ['a'], ['b']) ∧
+    readTerm 2 (writeTerm (.lang ['v'] "en".toList) ++ "-x".toList) ≠ some (.lang ['v'] "en".toList, "-x".toList) ∧
+    readTerm 2 (writeTerm (.lit ['v'] xsdString) ++ "@en".toList) ≠ some (.lit ['v'] xsdString, "@en".toList) := by
+  decide +kernel
+
+/-- … and it holds at every place the writer puts a term: before the separating space, before
+`>>`, before the final `.` followed by LF — which is why `read_write_quad` carries no such
+hypothesis -/
+theorem delim_at_writer_positions (t : Term) (r : Str) :
+    delim (' ' :: writeTerm t ++ r) = true ∧ delim ('>' :: r) = true ∧ delim ['.', '\n'] = true ∧ delim ['.'] = true :=
+  ⟨by
+      obtain ⟨c, rest, e, hc⟩ := writeTerm_head t
+      exact delim_sp _ ⟨c, rest ++ r, by rw [e]; rfl, hc⟩,
+    delim_gt r, by decide, by decide⟩
 
 /-! ## non-vacuity -/
 
